@@ -615,8 +615,11 @@ func (s *Subscription) processCollectionEvent(event *rescache.ResourceEvent) {
 			if sub.IsSent() {
 				// We increase the indirectsent references, otherwise increased
 				// when calling sub.GetRPCResources, since we have no new
-				// resources to populate.
-				sub.indirectsent++
+				// resources to populate. A resource already referenced by this
+				// collection holds no new indirect subscription to count.
+				if s.refs[rid].count == 1 {
+					sub.indirectsent++
+				}
 				s.c.Send(rpc.NewEvent(s.rid, event.Event, rpc.AddEvent{Idx: idx, Value: v.RawMessage}))
 				return
 			}
@@ -682,6 +685,11 @@ func (s *Subscription) processModelEvent(event *rescache.ResourceEvent) {
 					s.c.Errorf("Subscription %s: Error subscribing to resource %s: %s", s.rid, v.RID, err)
 					// TODO handle error properly
 					return
+				}
+				// A resource referenced more than once by this model holds a
+				// single indirect subscription: count and send it only once.
+				if s.refs[v.RID].count > 1 {
+					continue
 				}
 				hasUnsent = hasUnsent || !sub.IsSent()
 				if subs == nil {
